@@ -60,6 +60,56 @@ fn sliceref_rt<T: Nd + Copy + PartialEq, const N: usize>() {
     }
 }
 
+/// A slice of an align-1, 3-byte element type may start at ANY byte address: the three residues of the start address
+/// modulo the element size are all exercised (byte offsets 0, 1, 2 into a byte buffer), for the shared and the mutable
+/// view, with symbolic length and contents.
+fn slices_at_any_address() {
+    let mut bytes: [u8; 14] = nd::any();
+    let orig = bytes;
+    let len = nd::range(0, 4);
+    nd::cover!(len == 4, "full slice");
+    let mut off = 0;
+    while off < 3 {
+        let p = unsafe { bytes.as_mut_ptr().add(off) } as *mut T3;
+        {
+            let s: &[T3] = unsafe { core::slice::from_raw_parts(p as *const T3, len) };
+            let cs = CSliceRef::from(s);
+            let a = cs.as_slice();
+            assert!(cs.as_ptr() == p as *const T3 && cs.len() == len, "same address and length");
+            assert!(a.as_ptr() == p as *const T3 && a.len() == len, "same address and length through as_slice");
+            let d: &[T3] = &*cs;
+            assert!(d.as_ptr() == p as *const T3 && d.len() == len);
+            let back: &[T3] = cs.into();
+            assert!(back.as_ptr() == p as *const T3 && back.len() == len);
+            let mut i = 0;
+            while i < len {
+                assert!(a[i].0[0] == orig[off + 3 * i] && a[i].0[2] == orig[off + 3 * i + 2]);
+                i += 1;
+            }
+        }
+        {
+            let s: &mut [T3] = unsafe { core::slice::from_raw_parts_mut(p, len) };
+            let mut cm = CSliceMut::from(s);
+            assert!(cm.as_ptr() == p as *const T3 && cm.len() == len);
+            {
+                let a = cm.as_slice();
+                assert!(a.as_ptr() == p as *const T3 && a.len() == len);
+            }
+            {
+                let m = cm.as_slice_mut();
+                assert!(m.as_ptr() == p as *const T3 && m.len() == len);
+            }
+        }
+        {
+            let s: &mut [T3] = unsafe { core::slice::from_raw_parts_mut(p, len) };
+            let cm = CSliceMut::from(s);
+            let back: &mut [T3] = cm.into();
+            assert!(back.as_ptr() == p as *const T3 && back.len() == len);
+        }
+        off += 1;
+    }
+}
+
 /// CSliceMut: same identities, and a write through each mutable way at a symbolic index lands in
 /// the original buffer at that index and nowhere else.
 fn slicemut_rt<T: Nd + Copy + PartialEq, const N: usize>() {
@@ -221,6 +271,7 @@ nd::harnesses! {
     #[kani::unwind(6)] fn c12_sliceref_u64_4() { sliceref_rt::<u64, 4>() }
     #[kani::unwind(6)] fn c12_sliceref_zst_4() { sliceref_rt::<Zst, 4>() }
     #[kani::unwind(6)] fn c12_sliceref_t3_4() { sliceref_rt::<T3, 4>() }
+    #[kani::unwind(6)] fn c12_slices_t3_any_address() { slices_at_any_address() }
     #[kani::unwind(8)] fn c12_sliceref_u8_6() { sliceref_rt::<u8, 6>() }
     #[kani::unwind(8)] fn c12_sliceref_u64_6() { sliceref_rt::<u64, 6>() }
     #[kani::unwind(8)] fn c12_sliceref_t3_6() { sliceref_rt::<T3, 6>() }
